@@ -67,7 +67,7 @@ func init() {
 	register(&Property{ID: "C19", Level: "exploration",
 		Rule: "cases = scalar / temporal / cast matrices of the curated corpus (k2, k3, k4, k1) + seeded random descriptors; for every scalar-like root field shape (singular, repeated element, map value, oneof branch, cast type; counter shapes) the full boundary set of its Go type (counter boundary-values: signed / unsigned 32 and 64 bit extremes, 2^53 neighbours, float32 / float64 subnormal, largest, rounding neighbours, +-0, +-Inf for double, empty / NUL / non-UTF-8 / 10 kB strings, all 256 byte values, enum numbers inside and outside the declared range, time instants with nanoseconds in +-14 h zones from year 1 to 9999, extreme durations) plus N full-range random values is placed into the field (two distinct values for lists and maps) and must survive CopyTo into an empty object followed by CopyFrom exactly (floats: bit equality up to the sign of zero); distinct = distinct (field, value) pairs",
 		Check: func(r *Run) {
-			cases := curatedCases("k1", "k2", "k3", "k4", "k6a", "k6b", "k7")
+			cases := curatedCases("k1", "k2", "k3", "k4", "k6a", "k6b", "k7", "k8")
 			cases = append(cases, randomCases(r, r.pick(6, 30))...)
 			r.generate(cases)
 			r.compile(cases)
